@@ -82,11 +82,13 @@ CHECKS = {
        "(with GDAL's bilinear fall-back) and cubic_spline (the default) are modelled exactly; block_transparent_wide - a source pixel "
        "gets from its block the value of the single-block run unless the reference pixel under its centre is the first / last "
        "row or column of the block's output window next to another block (the property's 'within one processing-grid pixel of a "
-       "block boundary'), with a kernel-checked counterexample at such a seam; block_mask_eq_whole_wide - validity agrees everywhere. "
+       "block boundary'), with a kernel-checked counterexample at such a seam; block_mask_eq_whole_wide - validity agrees everywhere; "
+       "the parameter image (Props/E2EParam.lean): param_image_block_transparent, param_image_partitions_agree. "
        "Tied to the code by pairs of real fusions (1 block vs "
        "1..6 halvings): parameter images identical (bit-identical on dyadic integer-exact data), corrected identical for nearest/"
        "bilinear/source grid, cubic-spline differences confined to one processing pixel of a seam; overlap_for_kernel vs model; and "
-       "multi-block real fusions against the whole-image model (Model/FuseImage.lean), which has no blocks at all.",
+       "multi-block real fusions against the whole-image model (Model/FuseImage.lean), which has no blocks at all, and at every pixel - "
+       "seams included - against the block model (what the block that writes a pixel computes from what it read; fuseimgblk op).",
   note="gain-blk-offset and in-painting have a per-block term and are excluded (partial), as the property states.",
   tech="Lean 4 proof (omega on windows, list congruence) + partition-pair differential runs", ref='7 C05'),
  'C06': dict(
